@@ -326,6 +326,16 @@ func c13PointsBody(t *testing.T, nBatches int, twoPoint bool, storedFlags ...boo
 			}
 		}
 	}
+	if !keyZero && !cfgUpd {
+		// points that carry the rule's own id as origin (what a set-value action of this rule wrote and the store
+		// rebroadcast): they are matching points like any other
+		for _, v := range []float64{4, 6} {
+			pts = append(pts, struct {
+				node string
+				p    data.Point
+			}{"n1", data.Point{Type: "value", Value: v, Origin: "rule1"}})
+		}
+	}
 	return func(x *mc.X) mc.Outcome {
 		cf := cfgs[x.Choose(len(cfgs), "rule")]
 		var cs []client.Condition
@@ -615,7 +625,7 @@ func TestC13(t *testing.T) {
 			nb, steps = 3, 6
 		}
 		r.Explore(mc.Config{Name: fmt.Sprintf("point-conditions-b%d", nb), Serial: true, SplitDepth: 2,
-			Rule: fmt.Sprintf("rule configurations: each of 72 single point conditions (number > < = !=, on/off, text = != contains; filters by node/type/key) and all ordered pairs over a reduced set, with two set-value actions (number+text, on/off) and two inactive actions (number, text) x all sequences of %d single-point batches over a 64-point alphabet (2 nodes x 2 types x 2 keys x values {4,5,6,0,1} / texts {ab,xaby,a}); after every batch everything the rule published is compared with a reference interpreter (condition active points, rule active point, action set-value with the rule as origin, action/inactive-action active points, nothing when nothing changes)", nb)},
+			Rule: fmt.Sprintf("rule configurations: each of 72 single point conditions (number > < = !=, on/off, text = != contains; filters by node/type/key) and all ordered pairs over a reduced set, with two set-value actions (number+text, on/off) and two inactive actions (number, text) x all sequences of %d single-point batches over a 66-point alphabet (two of them carrying the rule's own id as origin; 2 nodes x 2 types x 2 keys x values {4,5,6,0,1} / texts {ab,xaby,a}); after every batch everything the rule published is compared with a reference interpreter (condition active points, rule active point, action set-value with the rule as origin, action/inactive-action active points, nothing when nothing changes)", nb)},
 			c13PointsBody(t, nb, false))
 		nb2 := 1 // (two batches of up to two points would be 17 M sequences per rule configuration)
 		r.Explore(mc.Config{Name: fmt.Sprintf("point-conditions-two-point-batches-b%d", nb2), Serial: true, SplitDepth: 2,
